@@ -36,6 +36,50 @@ func advWorld(res *racResult, leaves []Hash) (*racWorld, bool) {
 	return w, true
 }
 
+// advAssignments: adversarial assignments of values to insertion slots (all values distinct and non-empty).
+type advAssignment struct {
+	name string
+	leaf func(int) Hash
+}
+
+func advAssignments() []advAssignment {
+	sib := func(a, b Hash) Hash { return parentHash(a, b) }
+	return []advAssignment{
+		{"pairs-of-leaves-share-a-12-byte-prefix", func(i int) Hash {
+			v := specLeaf(i)
+			b := specLeaf(i / 2 * 2)
+			copy(v[:12], b[:12])
+			return v
+		}},
+		{"all-leaves-share-a-12-byte-prefix", func(i int) Hash {
+			v := specLeaf(i)
+			b := specLeaf(0)
+			copy(v[:12], b[:12])
+			return v
+		}},
+		{"a-leaf-equals-the-hash-of-a-later-internal-node", func(i int) Hash {
+			switch i {
+			case 0:
+				return sib(specLeaf(2), specLeaf(3))
+			case 4:
+				return sib(sib(sib(specLeaf(2), specLeaf(3)), specLeaf(1)), sib(specLeaf(2), specLeaf(3)))
+			}
+			return specLeaf(i)
+		}},
+		{"a-leaf-equals-the-hash-of-an-earlier-internal-node", func(i int) Hash {
+			switch i {
+			case 2:
+				return sib(specLeaf(0), specLeaf(1))
+			case 4:
+				return sib(sib(specLeaf(0), specLeaf(1)), sib(sib(specLeaf(0), specLeaf(1)), specLeaf(3)))
+			case 5:
+				return sib(specLeaf(3), specLeaf(4))
+			}
+			return specLeaf(i)
+		}},
+	}
+}
+
 func TestRAC_ADV(t *testing.T) {
 	res := newRacResult("ADV")
 	for n := 1; n <= 9; n++ {
@@ -111,44 +155,7 @@ func TestRAC_ADV(t *testing.T) {
 	// (d) whole histories under adversarial value assignments: the C01 / C02 / C06 / C10 contracts of every
 	// enumerated history (apply with the root check, undo to every depth with the full-view comparison,
 	// different blocks after each undo depth, redo), with the leaf of insertion slot s given the value V(s).
-	sib := func(a, b Hash) Hash { return parentHash(a, b) }
-	assignments := []struct {
-		name string
-		leaf func(int) Hash
-	}{
-		{"pairs-of-leaves-share-a-12-byte-prefix", func(i int) Hash {
-			v := specLeaf(i)
-			b := specLeaf(i / 2 * 2)
-			copy(v[:12], b[:12])
-			return v
-		}},
-		{"all-leaves-share-a-12-byte-prefix", func(i int) Hash {
-			v := specLeaf(i)
-			b := specLeaf(0)
-			copy(v[:12], b[:12])
-			return v
-		}},
-		{"a-leaf-equals-the-hash-of-a-later-internal-node", func(i int) Hash {
-			switch i {
-			case 0:
-				return sib(specLeaf(2), specLeaf(3))
-			case 4:
-				return sib(sib(sib(specLeaf(2), specLeaf(3)), specLeaf(1)), sib(specLeaf(2), specLeaf(3)))
-			}
-			return specLeaf(i)
-		}},
-		{"a-leaf-equals-the-hash-of-an-earlier-internal-node", func(i int) Hash {
-			switch i {
-			case 2:
-				return sib(specLeaf(0), specLeaf(1))
-			case 4:
-				return sib(sib(specLeaf(0), specLeaf(1)), sib(sib(specLeaf(0), specLeaf(1)), specLeaf(3)))
-			case 5:
-				return sib(specLeaf(3), specLeaf(4))
-			}
-			return specLeaf(i)
-		}},
-	}
+	assignments := advAssignments()
 	cfgs := []mapCfg{{Full: true, TotalRows: 63}, {Full: true, TotalRows: 0}, {Full: false, TotalRows: 63}}
 	maxLeaves, maxBlocks := 5, 3
 	if res.thorough() {
